@@ -32,6 +32,8 @@ type Plan struct {
 	ever   map[int]bool
 	// BadCloses: closes of a descriptor the framework accepted earlier and already closed
 	BadCloses []int
+	// NotOpenCloses: close(2) calls of the framework on a number that was not open (EBADF)
+	NotOpenCloses []int
 	Sites     map[string]int // every site seen (observability of the enumeration)
 	IOonClosed []string      // read/write on an accepted descriptor after its close, before the number was handed out again
 
@@ -149,6 +151,15 @@ func Closed(fd int) {
 			p.BadCloses = append(p.BadCloses, fd)
 		}
 		delete(p.owned, fd)
+		p.mu.Unlock()
+	}
+}
+
+// ClosedNotOpen records a close(2) by the framework that the kernel answered with EBADF.
+func ClosedNotOpen(fd int) {
+	if p := cur.Load(); p != nil {
+		p.mu.Lock()
+		p.NotOpenCloses = append(p.NotOpenCloses, fd)
 		p.mu.Unlock()
 	}
 }
